@@ -73,6 +73,12 @@ def flat_raise_first(ctx: Ctx, rule: str) -> None:
 
 
 def run(ctx: Ctx) -> None:
+    from .c04 import is_occupied_rule
+
+    ctx.call(is_occupied_rule, "13")
+    from .c01 import scan_coverage_rule
+
+    ctx.call(scan_coverage_rule, "13s")
     ctx.call(T.t_a2, "1/T.A2")
     ctx.call(T.t_a2b, "1b/T.A2b")
     ctx.call(T.t_r1, "2/T.R1")
@@ -108,6 +114,7 @@ G = "cartgraph/graph.py"
 NODE = "cartgraph/node.py"
 R = "plugins/runner.py"
 MUTANTS = [
+    ("scan-own-pool-only", "cartgraph/node.py", "            node_params[f\"soft_boot{object_suffix}\"] = \"no\"\n\n        if not is_leaf:", "            node_params[f\"soft_boot{object_suffix}\"] = \"no\"\n            node_params[f\"pool_scope{object_suffix}\"] = \"own\"\n\n        if not is_leaf:", "13s"),
     ("rerun-scope-of-deciding-worker", "cartgraph/node.py", "            self.started_worker = old_started_worker or worker", "            self.started_worker = worker", "sc"),
     ("rerun-marker-not-restored", "cartgraph/node.py", "            test_statuses = [r[\"status\"].lower() for r in self.shared_filtered_results]\n            self.started_worker = old_started_worker\n", "            test_statuses = [r[\"status\"].lower() for r in self.shared_filtered_results]\n", "sc"),
     ("reservation-never-removed", "cartgraph/graph.py", "        try:\n            status = await self.runner.run_test_node(pre_node)\n        finally:\n            # the second step will immediately add its own entry before any other worker is scheduled\n            test_node.results.remove(pending_result)",
